@@ -258,6 +258,25 @@ def _worker_replay(item):
         return (cfg_index, choices, d, "ERR:" + traceback.format_exc()[-300:], False)
 
 
+def _worker_fidelity(item):
+    """Re-run one execution on the re-implemented scheduling step and on asyncio's own
+    (BaseEventLoop._run_once over a virtual selector); tie-free executions must agree."""
+    from . import vloop
+
+    cfg_index, choices, d = item
+    try:
+        vloop.set_loop_kind("vloop")
+        _, o1 = _run_exec(_W["run"], _W["configs"][cfg_index], choices, None)
+        ties = vloop.STATS["ties"]
+        vloop.set_loop_kind("stock")
+        _, o2 = _run_exec(_W["run"], _W["configs"][cfg_index], choices, None)
+        return (cfg_index, choices, digest_of(o1) == digest_of(o2), ties)
+    except Exception:
+        return (cfg_index, choices, False, -1)
+    finally:
+        vloop.set_loop_kind("vloop")
+
+
 def n_workers() -> int:
     try:
         return max(1, int(os.environ.get("VERIF_WORKERS", "") or min(16, os.cpu_count() or 1)))
@@ -273,6 +292,7 @@ def explore(
     init_ref: Optional[str] = None,
     audit_mod: int = AUDIT_MOD,
     min_units: int = 0,
+    fidelity: bool = False,
 ) -> Dict[str, Any]:
     """Exhaustively explore all configs; returns a result dict with Stats and audit."""
     t0 = time.time()
@@ -311,6 +331,7 @@ def explore(
                 errors.append(f"{tag}: {val}")
         audit_items = [(it.cfg_index, it.choices, it.d) for it in sorted(total.audit, key=lambda x: x.d)]
         replayed = [_worker_replay(it) for it in audit_items[:300]]
+        fid = [_worker_fidelity(it) for it in audit_items[:150]] if fidelity and not errors else []
     else:
         ctx = mp.get_context("fork")
         with ctx.Pool(workers, initializer=_worker_init,
@@ -326,6 +347,7 @@ def explore(
             audit_items = [(it.cfg_index, it.choices, it.d) for it in sorted(total.audit, key=lambda x: x.d)][:300]
             # re-run in (most likely) a different worker: reversed order, chunksize 1
             replayed = pool.map(_worker_replay, list(reversed(audit_items)), chunksize=1) if not errors else []
+            fid = pool.map(_worker_fidelity, audit_items[:150], chunksize=1) if fidelity and not errors else []
 
     mismatches = [r for r in replayed if r[2] != r[3] or not r[4]]
     return {
@@ -336,6 +358,10 @@ def explore(
         "mismatch_examples": [
             {"cfg_index": r[0], "choices": r[1], "first": r[2], "second": r[3]} for r in mismatches[:3]
         ],
+        "fidelity_checked": len(fid),
+        "fidelity_tiefree": sum(1 for f in fid if f[3] == 0),
+        "fidelity_mismatch_tiefree": [{"cfg_index": f[0], "choices": f[1]} for f in fid if not f[2] and f[3] == 0][:3],
+        "fidelity_mismatch_with_ties": sum(1 for f in fid if not f[2] and f[3] != 0),
         "wall_s": time.time() - t0,
         "workers": workers,
         "configs": len(configs),
